@@ -85,9 +85,11 @@ class Rig:
         self.cli_ip = {m: ip for m, (_h, ip) in clients.items()}
         self.cli = {m: net.get_node_by_hostname(h) for m, (h, _ip) in clients.items()}
         self.ip_to_client: Dict[str, str] = {}
+        self.client_addr: Dict[str, str] = {}
         for m, node in self.cli.items():
             for nic in node.network_interface.values():
                 self.ip_to_client[str(nic.ip_address)] = m
+                self.client_addr.setdefault(m, str(nic.ip_address))
         usm = self.srv.user_session_manager
         usm.remote_session_timeout_steps = timeout
         usm.local_session_timeout_steps = timeout
@@ -213,6 +215,18 @@ class Rig:
     def remote_login(self, c: str, u: str, p: str):
         r = self.req_cli(c, ["service", "terminal", "node_session_remote_login", u, p, self.cli_ip[c]])
         self.emit("RemoteLogin", c=c, u=u, p=p, ok=self._ok(r))
+
+    def direct_login(self, c: str, u: str, p: str, entry: str):
+        """A remote login that does not come through a client's terminal: the server's own
+        ``user-session-manager remote_login`` request (entry "usm-request") or the method behind it
+        (entry "usm-api"), with the client's address as the remote address."""
+        ip = self.client_addr[c]
+        if entry == "usm-request":
+            r = self.req_srv(["service", "user-session-manager", "remote_login", u, p, ip])
+            ok = self._ok(r)
+        else:
+            ok = self.srv.user_session_manager.remote_login(u, p, ip) is not None
+        self.emit("RemoteLogin", c=c, u=u, p=p, ok=ok)
 
     def _first(self, log: List[Tuple[int, str]], c: str) -> int:
         term = self.cli[c].terminal
